@@ -417,8 +417,10 @@ def run(rep):
     jobs.append(("subtraj", (4, 2, 6, False, 1), rep.seed))
     jobs.append(("subtraj", (3, 1, 3, True, 1), rep.seed))
     if not quick:
-        jobs += [("mt", ("LAP", 2, 2, 4), rep.seed), ("prio", ("PER", 2, 2, 3, 1, True), rep.seed), ("prio", ("LAP", 1, 3, 5, 2, False), rep.seed),
-                 ("subtraj", (5, 3, 7, False, 1), rep.seed), ("subtraj", (4, 2, 4, True, 2), rep.seed)]
+        # sized so that the lock-step replay (three objects, a pickle round trip and two deep copies per transition) stays
+        # within the thorough budget: ~10 ms per transition
+        jobs += [("mt", ("LAP", 2, 2, 4), rep.seed), ("prio", ("PER", 2, 2, 3, 1, True), rep.seed), ("prio", ("LAP", 1, 3, 4, 2, False), rep.seed),
+                 ("subtraj", (5, 3, 7, False, 1), rep.seed), ("subtraj", (4, 2, 4, True, 1), rep.seed)]
     ev = nt = 0
     for o in par.pmap(buffer_job, jobs, procs=6):
         res = sb.merge(rep, o)
